@@ -62,6 +62,30 @@ Section C08.
     exists t', evs, ok. tauto.
   Qed.
 
+  (* allocation_size() equals the bytes currently held from the allocator: 0 for the table that never
+     allocated (and dropping it hands nothing back); otherwise exactly the size of the one block that
+     dropping the table returns to the allocator *)
+  Theorem C08_allocation_size_is_the_block_held : forall t, SafeWF B T t -> TOwn B T tsize talign t ->
+    exists n evs ok,
+      (allocation_size B T tsize talign t = Ok n) /\
+      (drop_inner_table B T tsize talign needs_drop drop_ok t = Ok (evs, ok)) /\
+      (mask t = 0%nat -> (n = 0) /\ (evs = [])) /\
+      (mask t <> 0%nat -> ok = true -> exists dr al, (evs = dr ++ [EvFree n al]) /\
+                                        (forall sz a, ~ In (EvFree sz a) dr)).
+  Proof.
+    intros t HS HO.
+    destruct (drop_inner_table_spec B T HW HB tsize talign Hts Hta needs_drop drop_ok t HS HO) as (evs & ok & Ed & H0 & H1).
+    unfold allocation_size, is_singleton. destruct (Nat.eqb_spec (mask t) 0) as [Em|Em].
+    - exists 0, evs, ok. split; [reflexivity|]. split; [exact Ed|]. split.
+      + intros _. split; [reflexivity|exact (proj1 (H0 Em))].
+      + intros C. contradiction.
+    - destruct (H1 Em) as (len & al & off & dr & El & _ & (l & Hdr & _) & _ & _ & _ & Eevs).
+      change (buckets T t) with (nb T t). rewrite El.
+      exists len, evs, ok. split; [reflexivity|]. split; [exact Ed|]. split; [intros C; contradiction|].
+      intros _ Hok. rewrite Hok in Eevs. exists dr, al. split; [exact Eevs|].
+      intros sz a Hin. rewrite Hdr in Hin. apply in_map_iff in Hin. destruct Hin as (x & Hx & _). discriminate Hx.
+  Qed.
+
   (* shrink_to(m) / shrink_to_fit: never loses or changes an element, never enlarges the
      allocation, capacity >= max(len, min(m, previous capacity)), frees everything when the
      collection is empty and m = 0 *)
@@ -107,6 +131,7 @@ Section C08.
 End C08.
 
 Print Assumptions C08_capacity_ge_len.
+Print Assumptions C08_allocation_size_is_the_block_held.
 Print Assumptions C08_with_capacity.
 Print Assumptions C08_reserve.
 Print Assumptions C08_no_alloc_while_room.
